@@ -1,3 +1,4 @@
+import GoRedisModel.Proofs.SourceFacts
 import GoRedisModel.Proofs.Spans
 /-! # C20 — tracing spans are balanced for every request outcome
 
@@ -75,5 +76,11 @@ example : Balanced (serve noFloats {} false b!"*1\r\n$4\r\nPING\r\n*2\r\n$3\r\nG
 /-- the discipline rejects a double finish and an unfinished child (the machine is not vacuous) -/
 example : spanRun [.rootStart, .spanStart b!"x", .spanFinish, .spanFinish] none = none := by decide
 example : spanRun [.rootStart, .spanStart b!"x", .topFinish] none = none := by decide
+
+/-- **The source is the one the model was written from** (regenerated on every run): the connection loop (`serveConn`, `receive`, `dispatch`, `handleMessage`, `responseMessage`, `executeCommand`, `upperASCII`) of the current source
+have the fingerprints recorded in the model; a change to any of them means the theorems above are not shown for the code
+as it is now, until the model has been compared with it again -/
+theorem C20_source_conn_loop_is_the_modelled_one :
+    connLoopModelled.all (fun e => Generated.serverFingerprints.contains (e.1, e.2.1)) = true := source_conn_loop_is_the_modelled_one
 
 end GoRedis
